@@ -166,7 +166,7 @@ fn run_one(log: &mut Log, rng: &mut Rng, sh: &Shape, k: usize) {
     });
 }
 
-/// thorough tier only: an all-ones vector of 2^32 + 16 bits (512 MiB) in ONE superblock (k = 2^28): more
+/// both tiers (quick since the last session: 17 s, 526 MB): an all-ones vector of 2^32 + 16 bits (512 MiB) in ONE superblock (k = 2^28): more
 /// than 2^32 one bits are summed inside a superblock. Positions and answers are logged minus 2^32 (the
 /// trace holds 31-bit integers): rank_1(2^32 + d) - 2^32 must be d + 1, rank_0 must be 0.
 fn beyond_2p32(log: &mut Log) {
@@ -208,7 +208,7 @@ pub fn drive(log: &mut Log) {
     let seed = log.opts.seed;
     let thorough = log.opts.thorough();
     let mut case: u64 = 0;
-    if thorough && log.mine(0) && std::env::var("VERIF_RS_HUGE").map(|v| v != "0").unwrap_or(true) {
+    if log.mine(0) && std::env::var("VERIF_RS_HUGE").map(|v| v != "0").unwrap_or(true) {
         beyond_2p32(log);
     }
     let ks: [usize; 5] = [1, 3, 2048, 4096, 70_000];
